@@ -305,15 +305,18 @@ pub fn install_panic_hook() {
             .location()
             .map(|l| {
                 let f = l.file();
-                // shorten registry paths
-                let short = match f.find("/src/") {
-                    Some(_) => {
-                        let parts: Vec<&str> = f.rsplitn(4, '/').collect();
-                        let mut p: Vec<&str> = parts.into_iter().take(3).collect();
-                        p.reverse();
-                        p.join("/")
+                // registry paths: keep "<crate>-<version>/src/...";
+                // the repository's own files: keep "src/..."
+                let short = if let Some(i) = f.find("/registry/src/") {
+                    let rest = &f[i + "/registry/src/".len()..];
+                    match rest.find('/') {
+                        Some(j) => rest[j + 1..].to_string(),
+                        None => rest.to_string(),
                     }
-                    None => f.to_string(),
+                } else if let Some(i) = f.rfind("/src/") {
+                    f[i + 1..].to_string()
+                } else {
+                    f.to_string()
                 };
                 format!("{}:{}", short, l.line())
             })
